@@ -246,6 +246,26 @@ fn build_tree(a: &mut Allocator, v: &Value, encoding: u8) -> Result<NodePtr, Eva
         return json_tree(a, v);
     }
     let v = unflatten_tree(v);
+    if encoding == 3 {
+        // maximal sharing: equal sub-trees (atoms and pairs) are ONE node, as `(c X X)`, new_pair(x, x) or a
+        // back-reference decoder produce them
+        fn shared(a: &mut Allocator, v: &Value, memo: &mut HashMap<String, NodePtr>) -> Result<NodePtr, EvalErr> {
+            let key = v.to_string();
+            if let Some(n) = memo.get(&key) {
+                return Ok(*n);
+            }
+            let n = if let Some(b) = v.get("a") {
+                a.new_atom(&json_bytes(b))?
+            } else {
+                let f = shared(a, &v["f"], memo)?;
+                let r = shared(a, &v["r"], memo)?;
+                a.new_pair(f, r)?
+            };
+            memo.insert(key, n);
+            Ok(n)
+        }
+        return shared(a, &v, &mut HashMap::new());
+    }
     fn rec(a: &mut Allocator, v: &Value, enc: u8) -> Result<NodePtr, EvalErr> {
         if let Some(b) = v.get("a") {
             let b = json_bytes(b);
@@ -1583,11 +1603,31 @@ fn main() {
                         _ => json!({"f": tree, "r": {"f": big.clone(), "r": big}}),
                     };
                 }
+                let doubling = case % 8 == 1;
+                if doubling {
+                    // T_k = (T_{k-1} . T_{k-1}): identical children at every level, over a nil / small / long leaf
+                    let leaf_len = *r.pick(&[0usize, 1, 3, 33, 1000]);
+                    let levels = if leaf_len >= 1000 { 2 + r.below(4) } else { *r.pick(&[2u64, 3, 4, 5, 6, 7, 7, 8, 9]) };
+                    tree = atom_json(&r.bytes(leaf_len));
+                    for _ in 0..levels {
+                        tree = json!({"f": tree.clone(), "r": tree});
+                    }
+                    if r.chance(1, 3) {
+                        let other = rand_tree(&mut r, 4, 8, 10);
+                        tree = json!({"f": other, "r": tree});
+                    }
+                }
                 let f = 0x0400 | if case % 2 == 0 { 0x2000 } else { 0 };
                 let native = list_json(&[atom_json(&[63]), q(tree.clone())]);
                 let cl = sexp(CHIALISP_SHATREE).expect("chialisp program");
                 run_one(&mut out, case, &cl, &tree, &Cfg::new("chialisp", "chia", f, 0), &mut line);
                 run_one(&mut out, case, &native, &atom_json(&[]), &Cfg::new("native", "chia", f, 0).rel("cost_lt", "chialisp"), &mut line);
+                if doubling || case % 4 == 2 {
+                    // the same tree with equal sub-trees stored as ONE node: the cost must not depend on sharing
+                    let mut c3 = Cfg::new("native_shared", "chia", f, 0).rel("cost_lt", "chialisp").rel("eq_outcome", "native");
+                    c3.encoding = 3;
+                    run_one(&mut out, case, &native, &atom_json(&[]), &c3, &mut line);
+                }
             }
             _ => panic!("unknown profile"),
         }
